@@ -873,6 +873,7 @@ class C08Monitor(Monitor):
         self.sink_seen = {n: 0 for n in f.sinks}
         self.prev_items = set()
         self.now_items = set()
+        self.keep_alive = []
 
     def walk(self, f, lf):
         h = lf.routing_history
@@ -931,6 +932,7 @@ class C08Monitor(Monitor):
         h = item.routing_history
         self.now_items.add(k)
         if k not in self.item_ord:
+            self.keep_alive.append(item)      # python ids must not be recycled while they key item_ord
             self.item_ord[k] = ordinal_of(item, lib)
             self.item_len[k] = 0 if k in f.item_src else len(h)
         elif k not in self.prev_items:
